@@ -290,11 +290,18 @@ def coq_eval_cases(prop_id, prelude, check_fn, case_type, terms, shard=300, time
 # Known findings
 # --------------------------------------------------------------------------------------
 def load_known_findings():
+    out = []
     p = os.path.join(VERIF, "known_findings.json")
-    if not os.path.exists(p):
-        return []
-    with open(p) as fh:
-        return json.load(fh).get("findings", [])
+    if os.path.exists(p):
+        with open(p) as fh:
+            out += json.load(fh).get("findings", [])
+    d = os.path.join(VERIF, "findings.d")   # per-property fragments (merged into known_findings.json by tools/mkmanifest.py)
+    if os.path.isdir(d):
+        for fn in sorted(os.listdir(d)):
+            if fn.endswith(".json"):
+                with open(os.path.join(d, fn)) as fh:
+                    out += json.load(fh).get("findings", [])
+    return out
 
 
 # --------------------------------------------------------------------------------------
